@@ -55,6 +55,8 @@ ASSUMPTIONS = [
     'a spike train without any valid spike makes extract_wfs_cbin raise IndexError; the model has the same error branch, the oracle skips such inputs (reported, see known finding no-valid-spike)',
     'recording values are integers below 2^23 so float32 and the float32 mean inside nanmedian are exact; templates are compared as 2*median',
     'repeating a call with the same argument objects (same loader object) must give the same result as the first call; whether arguments are modified in place or results alias caches is NOT demanded, only its consequence on later results (the unchanged code modifies no argument)',
+    'input forms drawn independently of the values (tagged; the replay carries the form): spike_samples int64/int32/uint64/uint32/float64, spike_clusters and spike_channels int64/int32/uint32/uint16 (unsigned only for non-negative ids), h x/y int64/float64/float32, bin_file str or Path, max_wf / chunksize_samples / trough_offset as Python or numpy ints, positional vs keyword call in the documented signature order (make_channel_index, extract_wfs_array, extract_wfs_cbin), arr C/F order and float32/float64, df columns and neighbour table int64/int32/unsigned, radius float/np.float64/np.float32/int, labels / indices list / tuple / ndarray',
+    'excluded forms: output_dir as str (extract_wfs_cbin calls output_dir.joinpath: AttributeError, the API wants a Path); spike_length_samples as a numpy integer (known finding np-int-spike-length); a uint64 sample column for extract_wfs_array (known finding extract-array-uint64-sample); unsigned sample columns with trough_offset > spike_length_samples (outside the domain: Python int -1 out of bounds)',
     'chunk sizes >= trough_offset (the property says 500..10000); peak channels within the probe; max_wf >= 1',
     'cases with more than 240 waveform rows x neighbours travel as a 61-bit order-sensitive polynomial digest of every traces / templates row (computed from the full arrays on both sides) instead of the full text; smaller cases compare every value',
 ]
@@ -233,6 +235,54 @@ def err_name(e):
 
 
 # ---------------------------------------------------------------------------------------------
+# input FORMS: the model is over values, so every legitimate representation of the same call must give the same answer
+# ---------------------------------------------------------------------------------------------
+def _scalar(v, kind):
+    """an integer-valued parameter as Python int / numpy narrow or wide int"""
+    return {'int': int, 'np.int64': np.int64, 'np.int32': np.int32, 'np.int16': np.int16, 'np.uint16': np.uint16}[kind](v)
+
+
+def _pick(rng, seq):
+    return seq[int(rng.integers(0, len(seq)))]
+
+
+def form_chidx(rng, radius):
+    if rng.random() < 0.4:
+        return {}
+    rk = ['float', 'np.float64', 'np.float32'] + (['int'] if float(radius).is_integer() else [])
+    return {'geom_dtype': _pick(rng, ['float64', 'float32', 'int64', 'int32']), 'order': _pick(rng, ['C', 'F']),
+            'radius_as': _pick(rng, rk), 'spelling': _pick(rng, ['keyword', 'positional'])}
+
+
+def form_extract(rng, samples, peaks, off, ln):
+    if rng.random() < 0.4:
+        return {}
+    signed = any(v < 0 for v in samples) or any(v < 0 for v in peaks)
+    ints = ['int64', 'int32'] + ([] if signed else ['uint64', 'uint32', 'uint16'])
+    # unsigned sample column: uint64 is the known finding extract-array-uint64-sample; narrower ones only inside the domain off <= len
+    sints = ['int64', 'int32'] + ([] if (signed or off > ln) else ['uint32', 'uint16'])
+    return {'order': _pick(rng, ['C', 'F']), 'sample_dtype': _pick(rng, sints), 'peak_dtype': _pick(rng, ints),
+            'cn_dtype': _pick(rng, ['int64', 'int32']), 'spelling': _pick(rng, ['keyword', 'positional']),
+            'params_as': _pick(rng, ['int', 'np.int64', 'np.int16'])}
+
+
+def form_bin(rng, inp):
+    if rng.random() < 0.35:
+        return {}
+    neg = any(v < 0 for v in inp['clusters'])
+    big = max(inp['clusters'], default=0) > 60000 or max(inp['chans'], default=0) > 60000
+    cd = ['int64', 'int32'] + ([] if neg else ['uint32'] + ([] if big else ['uint16']))
+    return {'samples_dtype': _pick(rng, ['int64', 'int32', 'uint64', 'uint64', 'uint32', 'float64']), 'clusters_dtype': _pick(rng, cd),
+            'chans_dtype': _pick(rng, ['int64', 'int32', 'uint32', 'uint16']), 'h_dtype': _pick(rng, ['int64', 'float64', 'float32']),
+            'bin_as': _pick(rng, ['Path', 'str']), 'params_as': _pick(rng, ['int', 'np.int64', 'np.int32']),
+            'spelling': _pick(rng, ['keyword', 'positional']), 'select_as': _pick(rng, ['list', 'ndarray', 'tuple'])}
+
+
+def form_tags(form, keys):
+    return tuple(f'{k}={form.get(k, "canonical")}' for k in keys) if form else ('form=canonical',)
+
+
+# ---------------------------------------------------------------------------------------------
 # (1) make_channel_index
 # ---------------------------------------------------------------------------------------------
 def _same(a, b):
@@ -240,18 +290,25 @@ def _same(a, b):
     return a.shape == b.shape and a.dtype == b.dtype and bool(np.array_equal(a, b, equal_nan=(a.dtype.kind == 'f')))
 
 
-def chidx_calls(x, y, radius, pad):
+def chidx_calls(x, y, radius, pad, form=None):
     """make_channel_index called repeatedly on the SAME geom object, another geometry in between:
     (result of the first call | exception, message when a later call returns something else | None, argument modified?).
     The first result is what is compared with the model of the ORIGINAL coordinates; a modified argument is only recorded."""
-    from ibldsp.utils import make_channel_index
-    geom = np.c_[x, y].astype(float)
+    from ibldsp.utils import make_channel_index as _mci
+    form = form or {}
+    geom = np.array(np.c_[x, y], dtype=form.get('geom_dtype', 'float64'), order=form.get('order', 'C'))
+    rad = {'float': float, 'np.float64': np.float64, 'np.float32': np.float32, 'int': int}[form.get('radius_as', 'float')](radius)
+
+    def make_channel_index(g, radius=None, pad_val=None):
+        if form.get('spelling') == 'positional' and g is geom:
+            return _mci(g, rad, pad_val)           # (geom, radius, pad_val): the order of the documented signature
+        return _mci(g, radius=rad if g is geom else radius, pad_val=pad_val)
     g0 = geom.copy()
     try:
         r1 = make_channel_index(geom, radius=radius, pad_val=pad)
     except Exception as e:
         return e, None, not _same(geom, g0)
-    first = r1.copy()
+    first = np.array(r1, copy=True)
     if len(x) > 1:
         make_channel_index(np.c_[y[::-1], x[::-1]].astype(float) * 2 + 1, radius=radius + 3)
     try:
@@ -260,52 +317,62 @@ def chidx_calls(x, y, radius, pad):
         return first, (f'call sequence g = geom; make_channel_index(g, radius={radius}); make_channel_index(other geometry); make_channel_index(g, radius={radius}) '
                        f'raised {type(e).__name__}: {e}'), not _same(geom, g0)
     msg = None
-    if not _same(r, first):
+    if not (r.shape == first.shape and np.array_equal(r, first)):
         msg = (f'call sequence g = geom; make_channel_index(g, radius={radius}, pad_val={pad}); make_channel_index(other geometry); '
                f'make_channel_index(g, radius={radius}, pad_val={pad}) on the same object returned {r.tolist()[:2]}..., the neighbour table of the '
                f'original coordinates is {first.tolist()[:2]}...')
     return first, msg, not _same(geom, g0)
 
 
-def impl_chidx(x, y, radius, pad):
-    ci, msg, _ = chidx_calls(x, y, radius, pad)
+def impl_chidx(x, y, radius, pad, form=None):
+    ci, msg, _ = chidx_calls(x, y, radius, pad, form)
     if isinstance(ci, Exception):
         return err_name(ci)
     return 'ok ' + (';'.join(_L(r) for r in ci) or '-') + ('' if msg is None else ' !second-call: ' + msg)
 
 
-def oracle_chidx(spec, radius):
+def oracle_chidx(spec, radius, form=None):
     from ibldsp.utils import make_channel_index
     x, y = geom_xy(spec)
     n = len(x)
     nb = brute_neighbours(x, y, radius)
     w = max(len(r) for r in nb)
-    ci, msg, _ = chidx_calls(x, y, radius, None)
+    ci, msg, _ = chidx_calls(x, y, radius, None, form)
     if isinstance(ci, Exception):
         return f'make_channel_index raised {type(ci).__name__}: {ci}'
     if msg:
         return msg
     exp = np.array([r + [n] * (w - len(r)) for r in nb], int).reshape(n, w)
     if ci.shape != exp.shape:
-        return f'channel index has shape {ci.shape}, expected {exp.shape}'
+        return f'channel index has shape {ci.shape}, expected {exp.shape} (form {form or "canonical"})'
     if not np.array_equal(ci, exp):
         c = int(np.where(np.any(ci != exp, axis=1))[0][0])
-        return f'row {c} is {ci[c].tolist()}, expected the ascending sites within {radius} um padded with {n}: {exp[c].tolist()}'
+        return f'row {c} is {ci[c].tolist()}, expected the ascending sites within {radius} um padded with {n}: {exp[c].tolist()} (form {form or "canonical"})'
     return None
 
 
 # ---------------------------------------------------------------------------------------------
 # (2) extract_wfs_array
 # ---------------------------------------------------------------------------------------------
-def extract_calls(arr, samples, peaks, cn, off, ln, add_nan):
+def extract_calls(arr, samples, peaks, cn, off, ln, add_nan, form=None):
     """extract_wfs_array called twice on the SAME arr / df / channel_neighbors objects, another extraction in between:
     (wfs of the first call | exception, message when the second call returns something else | None).  The first result is
     what is compared with the model of the ORIGINAL values."""
     import pandas as pd
-    from ibldsp.waveform_extraction import extract_wfs_array
-    df = pd.DataFrame({'sample': np.array(samples, dtype=np.int64), 'peak_channel': np.array(peaks, dtype=np.int64)})
+    from ibldsp.waveform_extraction import extract_wfs_array as _ewa
+    form = form or {}
+    arr = np.array(arr, order=form.get('order', 'C'))
+    cn = cn.astype(form.get('cn_dtype', 'int64'))
+    df = pd.DataFrame({'sample': np.array(samples, dtype=form.get('sample_dtype', 'int64')),
+                       'peak_channel': np.array(peaks, dtype=form.get('peak_dtype', 'int64'))})
     a0, c0, d0 = arr.copy(), cn.copy(), df.copy(deep=True)
-    kw = dict(trough_offset=off, spike_length_samples=ln, add_nan_trace=bool(add_nan))
+    kw = dict(trough_offset=_scalar(off, form.get('params_as', 'int')), spike_length_samples=_scalar(ln, form.get('params_as', 'int')),
+              add_nan_trace=bool(add_nan))
+
+    def extract_wfs_array(a, d, c, **k):
+        if form.get('spelling') == 'positional':   # (arr, df, channel_neighbors, trough_offset, spike_length_samples, add_nan_trace)
+            return _ewa(a, d, c, k['trough_offset'], k['spike_length_samples'], k['add_nan_trace'])
+        return _ewa(a, d, c, **k)
     try:
         wfs, cind, off_r = extract_wfs_array(arr, df, cn, **kw)
     except Exception as e:
@@ -345,7 +412,7 @@ def _extract_args(case):
 
 def impl_extract(case):
     arr, cn = _extract_args(case)
-    wfs, msg = extract_calls(arr, case['samples'], case['peaks'], cn, case['off'], case['len'], case['add_nan'])
+    wfs, msg = extract_calls(arr, case['samples'], case['peaks'], cn, case['off'], case['len'], case['add_nan'], case.get('form'))
     tail = '' if msg is None else ' !second-call: ' + msg
     if isinstance(wfs, Exception):
         return err_name(wfs) + tail
@@ -386,7 +453,8 @@ def gen_extract(rng):
     if k == 4 and peaks:
         peaks[int(rng.integers(0, len(peaks)))] = int(rng.choice([nc, -1, -nc, -nc - 1]))
     has_nan, add_nan = [(0, 1), (0, 1), (1, 0), (1, 0), (1, 1), (0, 0)][int(rng.integers(0, 6))]
-    return {'kind': 'extract', 'geom': spec, 'radius': radius, 'ns': ns, 'K': nc + 1 + int(rng.integers(0, 3)), 'off': off, 'len': ln,
+    return {'kind': 'extract', 'form': form_extract(rng, samples, peaks, off, ln),
+            'geom': spec, 'radius': radius, 'ns': ns, 'K': nc + 1 + int(rng.integers(0, 3)), 'off': off, 'len': ln,
             'samples': samples, 'peaks': peaks, 'has_nan': has_nan, 'add_nan': add_nan,
             'dtype': 'float32' if rng.random() < 0.5 else 'float64'}
 
@@ -408,8 +476,9 @@ def oracle_extract(case):
         arr = np.vstack([arr, np.full((1, ns), np.nan)])
     if case['has_nan'] and case['add_nan']:
         return None
+    arr = arr.astype(case.get('dtype', 'float64'))
     cn = make_channel_index(np.c_[x, y].astype(float), radius=case['radius'])
-    wfs, msg = extract_calls(arr, case['samples'], case['peaks'], cn, off, ln, case['add_nan'])
+    wfs, msg = extract_calls(arr, case['samples'], case['peaks'], cn, off, ln, case['add_nan'], case.get('form'))
     if isinstance(wfs, Exception):
         return f'extract_wfs_array raised {type(wfs).__name__}: {wfs}'
     if msg:
@@ -472,18 +541,36 @@ class BinRun:
                 kw['trough_offset'] = inp['off']
             if 'len' in inp:
                 kw['spike_length_samples'] = inp['len']
-            args = {'samples': np.array(inp['samples'], dtype=np.int64), 'clusters': np.array(inp['clusters'], dtype=np.int64),
-                    'chans': np.array(inp['chans'], dtype=np.int64), 'x': x, 'y': y}
+            form = inp.get('form') or {}
+            args = {'samples': np.array(inp['samples'], dtype=form.get('samples_dtype', 'int64')),
+                    'clusters': np.array(inp['clusters'], dtype=form.get('clusters_dtype', 'int64')),
+                    'chans': np.array(inp['chans'], dtype=form.get('chans_dtype', 'int64')),
+                    'x': x.astype(form.get('h_dtype', 'int64')), 'y': y.astype(form.get('h_dtype', 'int64'))}
+            if not (np.array_equal(args['samples'], inp['samples']) and np.array_equal(args['clusters'], inp['clusters'])
+                    and np.array_equal(args['chans'], inp['chans'])):
+                raise ValueError(f'form {form} cannot represent the spike values')
+            pa = form.get('params_as', 'int')
+            binf = str(d / 'rec.bin') if form.get('bin_as') == 'str' else d / 'rec.bin' 
             h = {'x': args['x'], 'y': args['y']}
             rk = {'ns': ns, 'nc': K, 'nsync': 1, 'dtype': 'float32', 'fs': 30000}
             snap = {k: v.copy() for k, v in args.items()}
             rk0 = dict(rk)
 
+            off_, ln_ = window_of(inp)
+
             def call(out):
                 out.mkdir()
-                we.extract_wfs_cbin(d / 'rec.bin', out, args['samples'], args['clusters'], args['chans'], h=h, reader_kwargs=rk,
-                                    max_wf=inp['max_wf'], chunksize_samples=inp['cs'], n_jobs=inp['n_jobs'], preprocess_steps=[],
-                                    seed=inp['seed'], **kw)
+                if form.get('spelling') == 'positional':
+                    # (bin_file, output_dir, spike_samples, spike_clusters, spike_channels, h, channel_labels, max_wf, trough_offset,
+                    #  spike_length_samples, chunksize_samples, reader_kwargs, n_jobs, wfs_dtype, preprocess_steps, seed, scratch_dir)
+                    we.extract_wfs_cbin(binf, out, args['samples'], args['clusters'], args['chans'], h, None, _scalar(inp['max_wf'], pa),
+                                        _scalar(off_, pa), int(ln_), _scalar(inp['cs'], pa), rk, inp['n_jobs'], np.float32, [],
+                                        inp['seed'], None)
+                else:
+                    we.extract_wfs_cbin(binf, out, args['samples'], args['clusters'], args['chans'], h=h, reader_kwargs=rk,
+                                        max_wf=_scalar(inp['max_wf'], pa), chunksize_samples=_scalar(inp['cs'], pa), n_jobs=inp['n_jobs'],
+                                        preprocess_steps=[], seed=inp['seed'],
+                                        **{k: (_scalar(v, pa) if k == 'trough_offset' else int(v)) for k, v in kw.items()})
 
             def untouched(when):
                 for k in snap:
@@ -530,8 +617,9 @@ class BinRun:
 
                         def load(key):
                             labels, indices = key
-                            la = None if labels is None else list(labels)
-                            ix = None if indices is None else list(indices)
+                            conv = {'list': list, 'tuple': tuple, 'ndarray': np.array}[form.get('select_as', 'list')]
+                            la = None if labels is None else conv(list(labels))
+                            ix = None if indices is None else conv(list(indices))
                             return wfl.load_waveforms(labels=la, indices=ix)
                         for key in inp.get('loads', []):
                             wfs, info, chn = load(key)
@@ -708,6 +796,7 @@ def gen_bin(rng, big=False):
     labs = None if rng.random() < 0.3 else tuple(int(v) for v in rng.choice(ids + [999], int(rng.integers(1, len(ids) + 2))))
     inds = None if rng.random() < 0.4 else tuple(sorted(set(int(v) for v in rng.integers(0, max_wf + 1, int(rng.integers(1, 4))))))
     inp['loads'] = [(labs, inds)]
+    inp['form'] = form_bin(rng, inp)
     return inp
 
 
@@ -859,6 +948,7 @@ def oracle_bin(inp, alt=None):
 # ---------------------------------------------------------------------------------------------
 def _desc_bin(inp, load_key):
     d = {k: inp[k] for k in ('kind', 'geom', 'ns', 'cs', 'n_jobs', 'max_wf', 'seed', 'off', 'len', 'samples', 'clusters', 'chans')}
+    d['form'] = inp.get('form', {})
     d['load'] = load_key
     return d
 
@@ -884,14 +974,16 @@ def correspondence(ctx):
         x, y = geom_xy(spec)
         radius = gen_radius(rng, x, y) if i < len(specs) - 3 else float(R_FILE)
         pad = None if rng.random() < 0.7 else int(rng.choice([0, len(x), len(x) + 5]))
+        form = form_chidx(rng, radius)
         lines.append(f"chidx {_L(x)} {_L(y)} {r2_of(radius)} {'-' if pad is None else pad}")
-        impl.append(impl_chidx(x, y, radius, pad))
+        impl.append(impl_chidx(x, y, radius, pad, form))
         nb = brute_neighbours(x, y, radius) if len(x) <= 48 else None
         boundary = nb is not None and any((int(x[a]) - int(x[b])) ** 2 + (int(y[a]) - int(y[b])) ** 2 == Fraction(radius) ** 2
                                           for a in range(len(x)) for b in nb[a] if a != b)
-        meta.append(({'kind': 'chidx', 'geom': spec, 'radius': radius, 'pad': pad}, len(x) >= 2,
+        meta.append(({'kind': 'chidx', 'geom': spec, 'radius': radius, 'pad': pad, 'form': form}, len(x) >= 2,
                      ('chidx', 'geom=' + spec[0], 'r=0' if radius == 0 else 'r=pair_distance' if boundary else 'r_other',
-                      'nc=1' if len(x) == 1 else 'nc<=48' if len(x) <= 48 else 'nc>48', 'pad=None' if pad is None else 'pad=given')))
+                      'nc=1' if len(x) == 1 else 'nc<=48' if len(x) <= 48 else 'nc>48', 'pad=None' if pad is None else 'pad=given')
+                     + form_tags(form, ('geom_dtype', 'order', 'radius_as', 'spelling'))))
     for (desc, nt, tags), a, b in zip(meta, impl, ctx.lean(lines)):
         ctx.compare('chidx', desc, a, b, nontrivial=nt, tags=tags)
 
@@ -911,6 +1003,7 @@ def correspondence(ctx):
         if any(s < off for s in cs_['samples']):
             tags.append('window_before_start(wraps)')
         tags.append(f'nan_row={cs_["has_nan"]}{cs_["add_nan"]}')
+        tags += list(form_tags(cs_['form'], ('order', 'sample_dtype', 'peak_dtype', 'spelling', 'params_as'))) + ['arr=' + cs_['dtype']]
         ctx.compare('extract', cs_, a, b, nontrivial=a.startswith('ok') and len(cs_['samples']) > 0, tags=tuple(tags))
 
     # ---- (3) extract_wfs_cbin + loader
@@ -940,7 +1033,7 @@ def correspondence(ctx):
         mode = 'full' if (run.err is None and run.n * nnb_bound <= 240) else 'digest'
         lines.append(line_bin(inp, choice, sched, load_key, mode, inp['off'], inp['len']))
         impl.append(canon_bin(inp, run, load_key, mode))
-        meta.append((_desc_bin(inp, load_key), run.err is None and run.n > 0, bin_tags(inp) + ('traces=' + mode, 'call_twice+loader_reuse' if deep else 'single_call') + (('argument_modified_in_place',) if run.arg_modified else ())))
+        meta.append((_desc_bin(inp, load_key), run.err is None and run.n > 0, bin_tags(inp) + ('traces=' + mode, 'call_twice+loader_reuse' if deep else 'single_call') + form_tags(inp.get('form'), ('samples_dtype', 'clusters_dtype', 'chans_dtype', 'h_dtype', 'bin_as', 'params_as', 'spelling')) + (('argument_modified_in_place',) if run.arg_modified else ())))
         if run.arg_modified:
             ctx.note('argument modified in place (recorded only): ' + run.arg_modified)
     for (desc, nt, tags), a, b in zip(meta, impl, ctx.lean(lines)):
@@ -968,7 +1061,7 @@ def _size(inp):
 def run_oracle(inp):
     try:
         if inp['kind'] == 'chidx':
-            return oracle_chidx(inp['geom'], inp['radius'])
+            return oracle_chidx(inp['geom'], inp['radius'], inp.get('form'))
         if inp['kind'] == 'extract':
             return oracle_extract(inp)
         alt = inp.get('alt')
@@ -1120,6 +1213,45 @@ def kf_no_valid_spike():
     return isinstance(BinRun(inp, loader=False).err, IndexError)
 
 
+def kf_extract_array_uint64_sample():
+    """extract_wfs_array with an in-domain df whose 'sample' column is uint64 (Kilosort spike times): uint64 + int64 arange promotes to
+    float64 and NumPy refuses it as an index (IndexError)"""
+    import pandas as pd
+    from ibldsp.waveform_extraction import extract_wfs_array
+    arr = np.vstack([formula(40, 3, 2), np.full((1, 40), np.nan)])
+    df = pd.DataFrame({'sample': np.array([10, 20], dtype=np.uint64), 'peak_channel': np.array([0, 1], dtype=np.int64)})
+    try:
+        extract_wfs_array(arr, df, np.array([[0, 1], [0, 1]]), trough_offset=2, spike_length_samples=5)
+    except IndexError:
+        return True
+    return False
+
+
+def kf_np_int_spike_length():
+    """extract_wfs_cbin(spike_length_samples=np.int64(128)): the traces .npy header is written as (n, nc, np.int64(128)) and re-opening it fails"""
+    import tempfile as _t
+    from ibldsp import waveform_extraction as we
+    d = Path(_t.mkdtemp(prefix='c13_'))
+    try:
+        x, y = geom_xy(('np1', 12, 0))
+        ns, K = 1500, 13
+        ((np.arange(ns, dtype=np.int64)[:, None] * K + np.arange(K, dtype=np.int64)[None, :]) % MOD).astype(np.float32).tofile(d / 'rec.bin')
+        (d / 'out').mkdir()
+        with warnings.catch_warnings():
+            warnings.simplefilter('ignore')
+            try:
+                we.extract_wfs_cbin(d / 'rec.bin', d / 'out', np.array([100, 700]), np.array([1, 1]), np.array([3, 4]), h={'x': x, 'y': y},
+                                    reader_kwargs={'ns': ns, 'nc': K, 'nsync': 1, 'dtype': 'float32', 'fs': 30000}, max_wf=2,
+                                    spike_length_samples=np.int64(128), chunksize_samples=500, n_jobs=1, preprocess_steps=[], seed=0)
+            except ValueError:
+                return True
+        return False
+    finally:
+        shutil.rmtree(d, ignore_errors=True)
+
+
 def known_findings(ctx):
-    return {'templates-skip-empty-unit': kf_templates_skip_empty_unit,
+    return {'extract-array-uint64-sample': kf_extract_array_uint64_sample,
+            'np-int-spike-length': kf_np_int_spike_length,
+            'templates-skip-empty-unit': kf_templates_skip_empty_unit,
             'no-valid-spike': kf_no_valid_spike}
